@@ -45,6 +45,17 @@ impl EnrKey for ToyKey {
     }
 }
 
+impl enr::EnrKeyUnambiguous for ToyKey {
+    fn decode_public(bytes: &[u8]) -> Result<ToyPublic, DecoderError> {
+        if bytes.len() != 32 {
+            return Err(DecoderError::Custom("bad toy key"));
+        }
+        let mut o = [0u8; 32];
+        o.copy_from_slice(bytes);
+        Ok(ToyPublic(o))
+    }
+}
+
 impl EnrPublicKey for ToyPublic {
     type Raw = [u8; 32];
     type RawUncompressed = [u8; 32];
@@ -144,7 +155,14 @@ impl KeyKind for LibsecpK {
     }
 }
 
+#[cfg(not(feature = "ed"))]
+pub type EdK = ToyK;
+#[cfg(not(feature = "ed"))]
+pub type CombK = ToyK;
+
+#[cfg(feature = "ed")]
 pub struct EdK;
+#[cfg(feature = "ed")]
 impl KeyKind for EdK {
     type K = ed25519_dalek::SigningKey;
     const KT: KT = KT::Ed;
@@ -154,7 +172,9 @@ impl KeyKind for EdK {
     }
 }
 
+#[cfg(feature = "ed")]
 pub struct CombK;
+#[cfg(feature = "ed")]
 impl KeyKind for CombK {
     type K = enr::CombinedKey;
     const KT: KT = KT::Comb;
